@@ -35,6 +35,7 @@ static void sem_setup(void) {
     char k[16] = "sem_init0";
     k[8] = (char)('0' + i);
     sem_init_val[i] = cfg_get(k, 0);
+    RT_DIRTY(sem[i]);
     fiber_semaphore_init(&sem[i], (int)sem_init_val[i]);
     vs_watch(&sem[i], sizeof sem[i]);
   }
@@ -147,6 +148,7 @@ GHOST static void grw_check(int l, int idx, long v, int write) {
 static void rw_setup(void) {
   long n = cfg_get("nrw", 0);
   for (int i = 0; i < n && i < NRW; i++) {
+    RT_DIRTY(rwl[i]);
     fiber_rwlock_init(&rwl[i]);
     rw_writer[i] = -1;
     vs_watch(&rwl[i], sizeof rwl[i]);
@@ -159,9 +161,36 @@ static void rw_section(int idx, int l, int write, int y, int w) {
   if (w) rt_work(idx, w);
   if (write) rw_cell[l] = v + 1;
 }
+static long rw_holds_max;
 static int rw_do_op(int idx, op_t* op) {
   int l = op->a % NRW;
   int write = -1, try = 0;
+  if (!strcmp(op->name, "rdhold")) {
+    // any number of simultaneous read holds: up to b read locks taken by this fiber (tryrdlock: a reader that finds a writer
+    // waiting would queue behind it), a trywrlock against them, a yield so that the others meet the held lock, then all released
+    long got = 0;
+    for (long i = 0; i < op->b; i++) {
+      if (fiber_rwlock_tryrdlock(&rwl[l]) != FIBER_SUCCESS) break;
+      grw_acq(l, idx, 0, 1);
+      got++;
+    }
+    if (got > rw_holds_max) rw_holds_max = got;
+    g_nb_enter(idx);
+    int r = fiber_rwlock_trywrlock(&rwl[l]);
+    g_nb_exit(idx);
+    if (r == FIBER_SUCCESS) {
+      grw_acq(l, idx, 1, 1);
+      rw_section(idx, l, 1, 0, 0);
+      grw_rel(l, idx, 1);
+      fiber_rwlock_wrunlock(&rwl[l]);
+    }
+    fiber_yield();
+    for (long i = 0; i < got; i++) {
+      grw_rel(l, idx, 0);
+      fiber_rwlock_rdunlock(&rwl[l]);
+    }
+    return 1;
+  }
   if (!strcmp(op->name, "rd")) write = 0;
   else if (!strcmp(op->name, "wr")) write = 1;
   else if (!strcmp(op->name, "tryrd")) write = 0, try = 1;
@@ -199,6 +228,7 @@ GHOST static void rw_final(void) {
   vs_label_add("rw_try_ok", rw_try_ok);
   vs_label_add("rw_try_fail", rw_try_fail);
   vs_label_max("rw_shared_max", rw_shared_max);
+  vs_label_max("crowd", (uint64_t)rw_holds_max);
   if (n && rw_blocked > 0) rt_nontrivial("rwlock");
   vs_rt_exit();
 }
@@ -240,11 +270,12 @@ static void bar_setup(void) {
     char k[16] = "bar_count0";
     k[9] = (char)('0' + i);
     bar_count[i] = (int)cfg_get(k, 1);
+    RT_DIRTY(bar[i]);
     fiber_barrier_init(&bar[i], (uint32_t)bar_count[i]);
     // as if bar_start waits had already happened (a whole number of rounds): the state of an idle barrier is its counter
     uint64_t start = (uint64_t)cfg_get("bar_start", 0);
     start -= start % (uint64_t)bar_count[i];
-    bar[i].counter = start;
+    if (start) bar[i].counter += start;
     vs_watch(&bar[i], sizeof bar[i]);
   }
 }
@@ -333,6 +364,7 @@ GHOST static void gsp_rel(int l, int idx) {
 static void sp_setup(void) {
   long n = cfg_get("nspin", 0);
   for (int i = 0; i < n && i < NSP; i++) {
+    RT_DIRTY(spl[i]);
     fiber_spinlock_init(&spl[i]);
     sp_holder[i] = -1;
     uint32_t start = (uint32_t)cfg_get("spin_start", 0);
